@@ -773,16 +773,16 @@ Definition AllCorrect (g : graph) : Prop :=
     s_ready s = ready_spec g (s_key s) /\
     s_chk_safe s = false /\ s_chk_after s = false /\ s_chk_ready s = false.
 
-Theorem update_meta_correct_gen g :
+Theorem update_meta_with_correct pol g :
   WF g -> Acyclic g -> FlagInv g ->
-  (safe_merge = MergeDeepest \/ NoStaleLow g) ->
-  exists g', update_meta g = Some g' /\ AllCorrect g' /\
+  (pol = MergeDeepest \/ NoStaleLow g) ->
+  exists g', update_meta_with pol g = Some g' /\ AllCorrect g' /\
              (exists f, keeps f /\ g' = mapg f g).
 Proof.
   intros Hwf [Hca Hda] [HFs [HFn HFr]] Hpol.
-  set (g1 := update_meta_safe g).
-  assert (E1 : g1 = mapg (upd_safe g safe_merge) g) by reflexivity.
-  assert (K1 := upd_safe_keeps g safe_merge).
+  set (g1 := update_meta_safe_with pol g).
+  assert (E1 : g1 = mapg (upd_safe g pol) g) by reflexivity.
+  assert (K1 := upd_safe_keeps g pol).
   assert (Hwf1 : WF g1) by (rewrite E1; apply WF_mapg; assumption).
   assert (Hda1 : DepAcyclic g1) by (rewrite E1; apply DepAcyclic_mapg; assumption).
   assert (HFn1 : FlagInv_need g1) by (rewrite E1; apply FlagInv_need_mapg; [apply upd_safe_keeps_need | assumption]).
@@ -795,7 +795,7 @@ Proof.
   set (g3 := update_meta_ready g2).
   assert (E3 : g3 = mapg (upd_ready g2) g2) by reflexivity.
   exists g3. split; [|split].
-  - unfold update_meta. fold g1. rewrite Hu2. reflexivity.
+  - unfold update_meta_with. fold g1. rewrite Hu2. reflexivity.
   - assert (HFr2 : FlagInv_ready g2).
     { rewrite E2. apply FlagInv_ready_mapg; [apply wb_keeps_ready|].
       rewrite E1. apply FlagInv_ready_mapg; [apply upd_safe_keeps_ready | assumption]. }
@@ -806,7 +806,7 @@ Proof.
     destruct (H2 s2 Hin2) as [Hca2 Hn2].
     pose proof Hin2 as Hin2'. rewrite E2 in Hin2'. unfold mapg in Hin2'. cbn [g_steps with_steps] in Hin2'.
     apply in_map_iff in Hin2'. destruct Hin2' as [s1 [Es1 Hin1]].
-    destruct (update_meta_safe_correct_gen safe_merge g Hca HFs Hpol s1 Hin1) as [Hs1 Hcs1].
+    destruct (update_meta_safe_correct_gen pol g Hca HFs Hpol s1 Hin1) as [Hs1 Hcs1].
     destruct (upd_ready_keeps_safe g2) as [K3 [Hs3a [Hs3b Hs3c]]].
     destruct (upd_ready_keeps_need g2) as [_ [Hn3a [_ Hn3c]]].
     destruct (wb_keeps_safe vf) as [K2 [Hs2a [Hs2b Hs2c]]].
@@ -819,7 +819,7 @@ Proof.
     + rewrite Hs3c, <- Es1, Hs2c. exact Hcs1.
     + rewrite Hn3c. exact Hca2.
     + exact Hcr3.
-  - exists (fun s => upd_ready g2 (wb vf (upd_safe g safe_merge s))). split.
+  - exists (fun s => upd_ready g2 (wb vf (upd_safe g pol s))). split.
     + assert (K2 := wb_keeps vf). assert (K3 := upd_ready_keeps g2).
       constructor; intros s; cbv beta.
       * rewrite (k_key _ K3), (k_key _ K2), (k_key _ K1); reflexivity.
@@ -836,6 +836,13 @@ Proof.
     + rewrite E3, E2, E1. unfold mapg. cbn [g_steps with_steps g_files g_others g_deps g_targets g_tdirs g_avail g_threshold].
       rewrite !map_map. reflexivity.
 Qed.
+
+Theorem update_meta_correct_gen g :
+  WF g -> Acyclic g -> FlagInv g ->
+  (safe_merge = MergeDeepest \/ NoStaleLow g) ->
+  exists g', update_meta g = Some g' /\ AllCorrect g' /\
+             (exists f, keeps f /\ g' = mapg f g).
+Proof. apply update_meta_with_correct. Qed.
 
 (* ------------------------------------------------------------------------------------------ *)
 (* What the generated SQL fragments say                                                       *)
@@ -1178,4 +1185,1222 @@ Proof.
   - intros k y Hy. specialize (H1 k (cons_keys_src g k y Hy)). rewrite forallb_forall in H1.
     apply Nat.ltb_lt. apply H1. exact Hy.
   - intros k Hk. apply Nat.ltb_lt. apply H2. exact Hk.
+Qed.
+
+(* ------------------------------------------------------------------------------------------ *)
+(* Refutations on the faithful model                                                          *)
+(* ------------------------------------------------------------------------------------------ *)
+
+Definition wstep (k st need : N) (cr : option N) (safe : bool) (ineed : N) (cs ca crd : bool) : step :=
+  mkStep k st need false 0 0 false cr safe safe ineed true false false cs ca crd 1 1 [].
+
+(* D11: plan (1, RUNNING) -> c (2, RUNNING, cached _safe still 0, flagged) -> b (3, PENDING, flagged).
+   Every stale step is flagged itself, yet MIN over the trace rows keeps b unsafe. *)
+Definition g_d11 : graph :=
+  mkGraph [wstep 1 22 34 None true 34 false false false;
+           wstep 2 22 32 (Some 1) false 32 true false false;
+           wstep 3 21 32 (Some 2) false 32 true false false]
+          [] [mkOnode 0 false None] [] [] [] [] 31.
+
+Definition leaves_eligible_b (g : graph) : bool :=
+  existsb (fun s => eligible_spec g s && negb (eligible_cached g s)) (g_steps g).
+Definition starts_ineligible_b (g : graph) : bool :=
+  existsb (fun s => eligible_cached g s && negb (eligible_spec g s)) (g_steps g).
+
+Lemma leaves_eligible_refl g : leaves_eligible_b g = true ->
+  exists s, In s (g_steps g) /\ eligible_spec g s = true /\ ~ In s (dispatch_set g).
+Proof.
+  unfold leaves_eligible_b. intros H. apply existsb_exists in H. destruct H as [s [Hin H]].
+  apply andb_true_iff in H. destruct H as [H1 H2]. exists s. repeat split; try assumption.
+  unfold dispatch_set. rewrite filter_In. intros [_ Hc]. rewrite Hc in H2. discriminate.
+Qed.
+Lemma starts_ineligible_refl g : starts_ineligible_b g = true ->
+  exists s, In s (dispatch_set g) /\ eligible_spec g s = false.
+Proof.
+  unfold starts_ineligible_b. intros H. apply existsb_exists in H. destruct H as [s [Hin H]].
+  apply andb_true_iff in H. destruct H as [H1 H2]. exists s. split.
+  - unfold dispatch_set. apply filter_In. split; assumption.
+  - destruct (eligible_spec g s); [discriminate | reflexivity].
+Qed.
+
+Definition the (o : option graph) (d : graph) : graph := match o with Some x => x | None => d end.
+
+Theorem update_meta_min_merge_refuted :
+  exists g, WF g /\ Acyclic g /\ FlagInv g /\ HasHashInv g /\
+    exists g', update_meta_with MergeMin g = Some g' /\ ~ AllCorrect g' /\
+      exists s, In s (g_steps g') /\ eligible_spec g' s = true /\ ~ In s (dispatch_set g').
+Proof.
+  exists g_d11.
+  split; [apply wf_refl; vm_compute; reflexivity|].
+  split; [split; [exists (fun k => N.to_nat (k - 1)); apply creator_rank_refl | exists (fun _ => 0%nat); apply need_rank_refl]; vm_compute; reflexivity|].
+  split; [split; [apply flaginv_safe_refl | split; [apply flaginv_need_refl | apply flaginv_ready_refl]];
+          vm_compute; reflexivity|].
+  split; [apply has_hash_inv_refl; vm_compute; reflexivity|].
+  exists (the (update_meta_with MergeMin g_d11) g_d11).
+  split; [vm_compute; reflexivity|].
+  split.
+  - intros H. apply allcorrect_refl in H. vm_compute in H. discriminate.
+  - apply leaves_eligible_refl. vm_compute. reflexivity.
+Qed.
+
+(* D8: plan (1) ; P (2, OPTIONAL, PENDING) produces f (10); C (3, DEFAULT, RUNNING) has the dynamic
+   input f, so P._implied_need = DEFAULT.  Deleting the edge f -> C (reset_for_rerun) flags C only. *)
+Definition g_d8 : graph :=
+  mkGraph [wstep 1 22 34 None true 34 false false false;
+           wstep 2 21 31 (Some 1) true 32 false false false;
+           set_ready (wstep 3 22 32 (Some 1) true 32 false false false) false false]
+          [mkFile 10 [102] 15 false (Some 2) false] [mkOnode 0 false None]
+          [mkDep 2 10 false; mkDep 10 3 true] [] [] [] 31.
+Definition d_d8 : dep := mkDep 10 3 true.
+
+Theorem del_dep_sink_only_refuted :
+  exists g d, WF g /\ Acyclic g /\ AllCorrect g /\ HasHashInv g /\
+    ~ FlagInv_need (del_dep_with trg_dep_del_sink_only g d) /\
+    forall pol, exists g', update_meta_with pol (del_dep_with trg_dep_del_sink_only g d) = Some g' /\
+      ~ AllCorrect g' /\ exists s, In s (dispatch_set g') /\ eligible_spec g' s = false.
+Proof.
+  exists g_d8, d_d8.
+  split; [apply wf_refl; vm_compute; reflexivity|].
+  split; [split; [exists (fun k => N.to_nat (k - 1)); apply creator_rank_refl | exists (fun k => if k =? 2 then 1%nat else 0%nat); apply need_rank_refl]; vm_compute; reflexivity|].
+  split; [apply allcorrect_refl; vm_compute; reflexivity|].
+  split; [apply has_hash_inv_refl; vm_compute; reflexivity|].
+  split.
+  - intros H. apply flaginv_need_refl in H. vm_compute in H. discriminate.
+  - intros pol.
+    exists (the (update_meta_with pol (del_dep_with trg_dep_del_sink_only g_d8 d_d8)) g_d8).
+    split; [destruct pol; vm_compute; reflexivity|].
+    split.
+    + intros H. apply allcorrect_refl in H. destruct pol; vm_compute in H; discriminate.
+    + apply starts_ineligible_refl. destruct pol; vm_compute; reflexivity.
+Qed.
+
+(* ------------------------------------------------------------------------------------------ *)
+(* Flag soundness of the primitive mutations                                                  *)
+(* ------------------------------------------------------------------------------------------ *)
+
+Lemma mapg_mapg F1 F2 g : mapg F2 (mapg F1 g) = mapg (fun s => F2 (F1 s)) g.
+Proof. unfold mapg. cbn [g_steps with_steps g_files g_others g_deps g_targets g_tdirs g_avail g_threshold]. rewrite map_map. reflexivity. Qed.
+
+Definition flagF (c : flagcol) (ks : list N) (s : step) : step :=
+  if mem_N (s_key s) ks then flag_step c s else s.
+Lemma flag_keys_mapg c ks g : flag_keys c ks g = mapg (flagF c ks) g.
+Proof. reflexivity. Qed.
+
+(* the step map computed by a trigger body (targets only read the dependency table) *)
+Fixpoint trigF (g : graph) (body : list (flagcol * ttarget)) (self : N) (d : option dep) (s : step) : step :=
+  match body with
+  | [] => s
+  | ct :: r => trigF g r self d (flagF (fst ct) (target_keys g self d (snd ct)) s)
+  end.
+
+Lemma target_keys_mapg F g self d t : target_keys (mapg F g) self d t = target_keys g self d t.
+Proof. destruct t; reflexivity. Qed.
+
+Lemma trigF_mapg F g body self d s : trigF (mapg F g) body self d s = trigF g body self d s.
+Proof.
+  revert s. induction body as [|ct r IH]; intros s; [reflexivity|].
+  cbn [trigF]. rewrite target_keys_mapg. apply IH.
+Qed.
+
+Lemma mapg_ext F1 F2 g : (forall s, F1 s = F2 s) -> mapg F1 g = mapg F2 g.
+Proof. intros H. unfold mapg. f_equal. apply map_ext. exact H. Qed.
+
+Lemma run_trigger_mapg body self d g : run_trigger body self d g = mapg (trigF g body self d) g.
+Proof.
+  unfold run_trigger. revert g. induction body as [|ct r IH]; intros g.
+  - cbn [fold_left trigF]. unfold mapg. destruct g. cbn. rewrite map_id. reflexivity.
+  - cbn [fold_left]. rewrite IH. rewrite flag_keys_mapg, mapg_mapg.
+    apply mapg_ext. intros s. rewrite trigF_mapg. reflexivity.
+Qed.
+
+(* maps that only raise flags *)
+Record only_flags (F : step -> step) : Prop := {
+  of_keeps : keeps F;
+  of_safe : forall s, s_safe (F s) = s_safe s;
+  of_safe_nh : forall s, s_safe_nh (F s) = s_safe_nh s;
+  of_ineed : forall s, s_ineed (F s) = s_ineed s;
+  of_tail : forall s, s_tail (F s) = s_tail s;
+  of_ready : forall s, s_ready (F s) = s_ready s;
+  of_cs : forall s, s_chk_safe s = true -> s_chk_safe (F s) = true;
+  of_ca : forall s, s_chk_after s = true -> s_chk_after (F s) = true;
+  of_cr : forall s, s_chk_ready s = true -> s_chk_ready (F s) = true }.
+
+Lemma flagF_only_flags c ks : only_flags (flagF c ks).
+Proof.
+  constructor; [constructor|..]; intros s; unfold flagF; destruct (mem_N (s_key s) ks); destruct c; cbn; auto.
+Qed.
+
+Lemma only_flags_comp F1 F2 : only_flags F1 -> only_flags F2 -> only_flags (fun s => F2 (F1 s)).
+Proof.
+  intros [K1 a1 b1 c1 d1 e1 f1 g1 h1] [K2 a2 b2 c2 d2 e2 f2 g2 h2].
+  constructor; [constructor|..]; intros s.
+  - rewrite (k_key _ K2), (k_key _ K1); reflexivity.
+  - rewrite (k_state _ K2), (k_state _ K1); reflexivity.
+  - rewrite (k_need _ K2), (k_need _ K1); reflexivity.
+  - rewrite (k_deferred _ K2), (k_deferred _ K1); reflexivity.
+  - rewrite (k_holding _ K2), (k_holding _ K1); reflexivity.
+  - rewrite (k_detached _ K2), (k_detached _ K1); reflexivity.
+  - rewrite (k_creator _ K2), (k_creator _ K1); reflexivity.
+  - rewrite (k_stored _ K2), (k_stored _ K1); reflexivity.
+  - rewrite (k_hh _ K2), (k_hh _ K1); reflexivity.
+  - rewrite (k_duration _ K2), (k_duration _ K1); reflexivity.
+  - rewrite (k_res _ K2), (k_res _ K1); reflexivity.
+  - rewrite a2, a1; reflexivity.
+  - rewrite b2, b1; reflexivity.
+  - rewrite c2, c1; reflexivity.
+  - rewrite d2, d1; reflexivity.
+  - rewrite e2, e1; reflexivity.
+  - intros H. apply f2, f1, H.
+  - intros H. apply g2, g1, H.
+  - intros H. apply h2, h1, H.
+Qed.
+
+Lemma only_flags_id : only_flags (fun s => s).
+Proof. constructor; [constructor|..]; intros s; auto. Qed.
+
+Lemma trigF_only_flags g body self d : only_flags (trigF g body self d).
+Proof.
+  induction body as [|ct r IH]; [apply only_flags_id|].
+  cbn [trigF]. apply (only_flags_comp _ _ (flagF_only_flags (fst ct) (target_keys g self d (snd ct))) IH).
+Qed.
+
+Definition has_flag (c : flagcol) (s : step) : bool :=
+  match c with FSafe => s_chk_safe s | FAfter => s_chk_after s | FReady => s_chk_ready s end.
+
+Lemma has_flag_mono F c s : only_flags F -> has_flag c s = true -> has_flag c (F s) = true.
+Proof. intros O. destruct c; cbn; [apply (of_cs F O) | apply (of_ca F O) | apply (of_cr F O)]. Qed.
+
+Lemma trigF_sets g body self d c t s :
+  In (c, t) body -> In (s_key s) (target_keys g self d t) -> has_flag c (trigF g body self d s) = true.
+Proof.
+  revert s. induction body as [|ct r IH]; intros s Hin Hk; [destruct Hin|].
+  cbn [trigF]. destruct Hin as [->|Hin].
+  - cbn [fst snd]. apply has_flag_mono; [apply trigF_only_flags|].
+    unfold flagF. apply mem_N_In in Hk. rewrite Hk. destruct c; reflexivity.
+  - apply IH; [exact Hin|].
+    assert (Hkk : s_key (flagF (fst ct) (target_keys g self d (snd ct)) s) = s_key s)
+      by apply (k_key _ (of_keeps _ (flagF_only_flags _ _))).
+    rewrite Hkk. exact Hk.
+Qed.
+
+(* ---- _ready ---- *)
+
+(* Same files and edges; _ready kept; _check_ready only raised. *)
+Lemma FlagInv_ready_mono F g :
+  (forall s, s_key (F s) = s_key s) -> (forall s, s_ready (F s) = s_ready s) ->
+  (forall s, s_chk_ready s = true -> s_chk_ready (F s) = true) ->
+  FlagInv_ready g -> FlagInv_ready (mapg F g).
+Proof.
+  intros Hk Hr Hc HF s Hin Hchk. unfold mapg in Hin. cbn [g_steps with_steps] in Hin.
+  apply in_map_iff in Hin. destruct Hin as [s0 [<- Hin]].
+  rewrite Hr, Hk. unfold mapg. rewrite ready_spec_steps. apply HF; [exact Hin|].
+  destruct (s_chk_ready s0) eqn:E; [|reflexivity]. rewrite (Hc s0 E) in Hchk. discriminate.
+Qed.
+
+(* ---- _implied_need ---- *)
+
+Record need_mono (F : step -> step) : Prop := {
+  nm_key : forall s, s_key (F s) = s_key s;
+  nm_need : forall s, s_need (F s) = s_need s;
+  nm_detached : forall s, s_detached (F s) = s_detached s;
+  nm_duration : forall s, s_duration (F s) = s_duration s;
+  nm_ineed : forall s, s_ineed (F s) = s_ineed s;
+  nm_tail : forall s, s_tail (F s) = s_tail s;
+  nm_ca : forall s, s_chk_after s = true -> s_chk_after (F s) = true }.
+
+Lemma find_step_mapg' F g k : (forall s, s_key (F s) = s_key s) ->
+  find_step (mapg F g) k = option_map F (find_step g k).
+Proof. intros K. unfold find_step, mapg. cbn [g_steps with_steps]. apply find_map_key. exact K. Qed.
+
+Section NeedMono.
+  Variable F : step -> step.
+  Hypothesis M : need_mono F.
+  Variable g : graph.
+
+  Lemma nm_cons_keys k : cons_keys (mapg F g) k = cons_keys g k.
+  Proof.
+    unfold cons_keys. change (g_deps (mapg F g)) with (g_deps g).
+    apply flat_map_ext. intros d1. destruct (d_src d1 =? k); [|reflexivity].
+    apply flat_map_ext. intros d2. destruct (d_src d2 =? d_snk d1); [|reflexivity].
+    rewrite find_step_mapg' by apply M.
+    destruct (find_step g (d_snk d2)) as [y|]; [|reflexivity]. cbn [option_map].
+    rewrite (nm_detached F M), (nm_key F M). reflexivity.
+  Qed.
+
+  Lemma nm_local_k k : local_k (mapg F g) k = local_k g k.
+  Proof.
+    unfold local_k. rewrite find_step_mapg' by apply M.
+    destruct (find_step g k) as [s|]; [|reflexivity]. cbn [option_map].
+    unfold local_need, elev. rewrite (nm_key F M), (nm_need F M). reflexivity.
+  Qed.
+
+  Lemma nm_duration_k k : duration_k (mapg F g) k = duration_k g k.
+  Proof.
+    unfold duration_k. rewrite find_step_mapg' by apply M.
+    destruct (find_step g k) as [s|]; [|reflexivity]. cbn [option_map]. apply (nm_duration F M).
+  Qed.
+
+  Lemma nm_vals_of k : vals_of (mapg F g) k = vals_of g k.
+  Proof.
+    unfold vals_of. rewrite find_step_mapg' by apply M.
+    destruct (find_step g k) as [s|]; [|reflexivity]. cbn [option_map].
+    rewrite (nm_ineed F M), (nm_tail F M). reflexivity.
+  Qed.
+
+  Lemma nm_new_val k : new_val (mapg F g) (vals_of (mapg F g)) k = new_val g (vals_of g) k.
+  Proof.
+    unfold new_val. rewrite nm_local_k, nm_duration_k, nm_cons_keys.
+    f_equal; f_equal; f_equal; apply map_ext; intros y; rewrite nm_vals_of; reflexivity.
+  Qed.
+
+  Lemma nm_seed0 k : In k (seed0 g) -> In k (seed0 (mapg F g)).
+  Proof.
+    unfold seed0, mapg. cbn [g_steps with_steps]. intros H.
+    apply in_map_iff in H. destruct H as [s [<- H]]. apply filter_In in H. destruct H as [H1 H2].
+    apply andb_true_iff in H2. destruct H2 as [H2 H3].
+    rewrite <- (nm_key F M s). apply in_map. apply filter_In. split; [apply in_map; exact H1|].
+    rewrite (nm_detached F M), H2, (nm_ca F M s H3). reflexivity.
+  Qed.
+
+  Lemma FlagInv_need_mono : FlagInv_need g -> FlagInv_need (mapg F g).
+  Proof.
+    intros HF s Hin Hd Hc Hy. unfold mapg in Hin. cbn [g_steps with_steps] in Hin.
+    apply in_map_iff in Hin. destruct Hin as [s0 [<- Hin]].
+    rewrite (nm_ineed F M), (nm_key F M), nm_new_val.
+    rewrite (nm_detached F M) in Hd.
+    apply HF; try assumption.
+    - destruct (s_chk_after s0) eqn:E; [|reflexivity]. rewrite (nm_ca F M s0 E) in Hc. discriminate.
+    - intros y Hyc Hys. apply (Hy y).
+      + rewrite (nm_key F M), nm_cons_keys. exact Hyc.
+      + apply nm_seed0. exact Hys.
+  Qed.
+End NeedMono.
+
+Lemma only_flags_need_mono F : only_flags F -> need_mono F.
+Proof.
+  intros O. pose proof (of_keeps F O) as K.
+  constructor; intros s; try apply K; try apply O.
+Qed.
+
+(* ---- _safe ---- *)
+
+(* creator forest, cached values kept; flags only raised; a step (of g) whose state, "is holding"
+   or creator changes is flagged *)
+Record safe_mono (g : graph) (F : step -> step) : Prop := {
+  sm_key : forall s, s_key (F s) = s_key s;
+  sm_safe : forall s, s_safe (F s) = s_safe s;
+  sm_safe_nh : forall s, s_safe_nh (F s) = s_safe_nh s;
+  sm_cs : forall s, s_chk_safe s = true -> s_chk_safe (F s) = true;
+  sm_change : forall s, In s (g_steps g) -> s_chk_safe (F s) = false ->
+      ok_nh (F s) = ok_nh s /\ ok_h (F s) = ok_h s /\ s_creator (F s) = s_creator s }.
+
+Section SafeMono.
+  Variable F : step -> step.
+  Variable g : graph.
+  Hypothesis M : safe_mono g F.
+
+  Lemma sm_creator_step s : In s (g_steps g) -> s_chk_safe (F s) = false ->
+    creator_step (mapg F g) (F s) = option_map F (creator_step g s).
+  Proof.
+    intros Hin Hc. unfold creator_step. destruct (sm_change g F M s Hin Hc) as [_ [_ ->]].
+    destruct (s_creator s); [|reflexivity]. apply find_step_mapg'. apply M.
+  Qed.
+
+  Lemma sm_unflagged n : forall s, In s (g_steps g) ->
+    aflag n (mapg F g) (F s) = false -> aflag n g s = false.
+  Proof.
+    induction n as [|n IH]; intros s Hin Ha; [reflexivity|].
+    cbn [aflag] in Ha. apply orb_false_iff in Ha. destruct Ha as [Ha1 Ha2].
+    rewrite (sm_creator_step s Hin Ha1) in Ha2.
+    cbn [aflag].
+    assert (Hcs : s_chk_safe s = false).
+    { destruct (s_chk_safe s) eqn:E; [|reflexivity]. rewrite (sm_cs g F M s E) in Ha1. discriminate. }
+    rewrite Hcs. cbn [orb].
+    destruct (creator_step g s) as [c|] eqn:Ec; [|reflexivity]. cbn [option_map] in *.
+    apply IH; [eapply creator_step_in; exact Ec | exact Ha2].
+  Qed.
+
+  Lemma sm_unflagged_S n : forall s, In s (g_steps g) -> aflag (S n) (mapg F g) (F s) = false ->
+    safe_fuel n (mapg F g) (F s) = safe_fuel n g s.
+  Proof.
+    induction n as [|n IH]; intros s Hin Ha; [reflexivity|].
+    cbn [aflag] in Ha. apply orb_false_iff in Ha. destruct Ha as [Ha1 Ha2].
+    rewrite (sm_creator_step s Hin Ha1) in Ha2.
+    cbn [safe_fuel]. rewrite (sm_creator_step s Hin Ha1).
+    destruct (creator_step g s) as [c|] eqn:Ec; [|reflexivity]. cbn [option_map] in *.
+    pose proof (creator_step_in g s c Ec) as Hc.
+    change (s_chk_safe (F c) || match creator_step (mapg F g) (F c) with
+                                | Some c0 => aflag n (mapg F g) c0 | None => false end = false)
+      with (aflag (S n) (mapg F g) (F c) = false) in Ha2.
+    rewrite (IH c Hc Ha2).
+    assert (Hcc : s_chk_safe (F c) = false).
+    { cbn [aflag] in Ha2. apply orb_false_iff in Ha2. tauto. }
+    destruct (sm_change g F M c Hc Hcc) as [Hs [Hh _]].
+    rewrite Hs, Hh. reflexivity.
+  Qed.
+End SafeMono.
+
+Lemma FlagInv_safe_mono F g : safe_mono g F -> FlagInv_safe g -> FlagInv_safe (mapg F g).
+Proof.
+  intros M HF s Hin Ha. unfold mapg in Hin. cbn [g_steps with_steps] in Hin.
+  apply in_map_iff in Hin. destruct Hin as [s0 [<- Hin]].
+  unfold L in *. rewrite length_mapg in Ha.
+  pose proof (sm_unflagged F g M _ s0 Hin Ha) as H1.
+  pose proof (sm_unflagged_S F g M _ s0 Hin Ha) as H2.
+  unfold safe_spec. rewrite length_mapg, H2. rewrite (sm_safe g F M), (sm_safe_nh g F M).
+  apply HF; assumption.
+Qed.
+
+Lemma only_flags_safe_mono g F : only_flags F -> safe_mono g F.
+Proof.
+  intros O. pose proof (of_keeps F O) as K.
+  constructor; intros s; try apply K; try apply O.
+  intros _ _. repeat split; [apply ok_nh_keeps | apply ok_h_keeps | apply K]; exact K.
+Qed.
+
+(* ---- Step.set_state ---- *)
+
+Definition stateF (k st : N) (df : bool) (s : step) : step :=
+  if s_key s =? k then apply_state s st df else s.
+
+Lemma set_step_state_mapg g k st df :
+  set_step_state g k st df =
+  mapg (fun s => trigF (mapg (stateF k st df) g) trg_step_state k None (stateF k st df s)) g.
+Proof.
+  unfold set_step_state. rewrite run_trigger_mapg.
+  change (with_steps g (map (fun s => if s_key s =? k then apply_state s st df else s) (g_steps g)))
+    with (mapg (stateF k st df) g).
+  apply mapg_mapg.
+Qed.
+
+Lemma stateF_key k st df s : s_key (stateF k st df s) = s_key s.
+Proof. unfold stateF. destruct (s_key s =? k); reflexivity. Qed.
+
+Theorem set_step_state_sound g k st df :
+  In (FSafe, TSelf) trg_step_state -> FlagInv g -> FlagInv (set_step_state g k st df).
+Proof.
+  intros Hin [HFs [HFn HFr]]. rewrite set_step_state_mapg.
+  set (g1 := mapg (stateF k st df) g).
+  pose proof (trigF_only_flags g1 trg_step_state k None) as O. pose proof (of_keeps _ O) as K.
+  split; [|split].
+  - apply FlagInv_safe_mono; [|exact HFs]. constructor; intros s.
+    + rewrite (k_key _ K). apply stateF_key.
+    + rewrite (of_safe _ O). unfold stateF. destruct (s_key s =? k); reflexivity.
+    + rewrite (of_safe_nh _ O). unfold stateF. destruct (s_key s =? k); reflexivity.
+    + intros H. apply (of_cs _ O). unfold stateF. destruct (s_key s =? k); exact H.
+    + intros _ Hc. unfold stateF in *. destruct (s_key s =? k) eqn:E.
+      * exfalso. apply N.eqb_eq in E.
+        assert (Hf : has_flag FSafe (trigF g1 trg_step_state k None (apply_state s st df)) = true).
+        { apply (trigF_sets g1 trg_step_state k None FSafe TSelf); [exact Hin|]. cbn. left. symmetry. exact E. }
+        unfold has_flag in Hf. congruence.
+      * repeat split; [apply ok_nh_keeps | apply ok_h_keeps | apply K]; exact K.
+  - apply FlagInv_need_mono; [|exact HFn]. constructor; intros s.
+    + rewrite (k_key _ K). apply stateF_key.
+    + rewrite (k_need _ K). unfold stateF. destruct (s_key s =? k); reflexivity.
+    + rewrite (k_detached _ K). unfold stateF. destruct (s_key s =? k); reflexivity.
+    + rewrite (k_duration _ K). unfold stateF. destruct (s_key s =? k); reflexivity.
+    + rewrite (of_ineed _ O). unfold stateF. destruct (s_key s =? k); reflexivity.
+    + rewrite (of_tail _ O). unfold stateF. destruct (s_key s =? k); reflexivity.
+    + intros H. apply (of_ca _ O). unfold stateF. destruct (s_key s =? k); exact H.
+  - apply FlagInv_ready_mono; [| | |exact HFr]; intros s.
+    + rewrite (k_key _ K). apply stateF_key.
+    + rewrite (of_ready _ O). unfold stateF. destruct (s_key s =? k); reflexivity.
+    + intros H. apply (of_cr _ O). unfold stateF. destruct (s_key s =? k); exact H.
+Qed.
+
+(* ---- Step.hold / Step.release ---- *)
+
+Definition holdF (k : N) (h : N -> N) (s : step) : step :=
+  if s_key s =? k then set_life s (s_state s) (s_deferred s) (s_defer_count s) (h (s_holding s)) else s.
+
+Lemma holdF_props k h s :
+  s_key (holdF k h s) = s_key s /\ s_need (holdF k h s) = s_need s /\
+  s_detached (holdF k h s) = s_detached s /\ s_duration (holdF k h s) = s_duration s /\
+  s_ineed (holdF k h s) = s_ineed s /\ s_tail (holdF k h s) = s_tail s /\
+  s_chk_after (holdF k h s) = s_chk_after s /\ s_ready (holdF k h s) = s_ready s /\
+  s_chk_ready (holdF k h s) = s_chk_ready s /\ s_safe (holdF k h s) = s_safe s /\
+  s_safe_nh (holdF k h s) = s_safe_nh s /\ s_chk_safe (holdF k h s) = s_chk_safe s /\
+  s_creator (holdF k h s) = s_creator s /\ ok_nh (holdF k h s) = ok_nh s.
+Proof. unfold holdF. destruct (s_key s =? k); repeat split; reflexivity. Qed.
+
+Definition subtreeF (ks : list N) (s : step) : step := flagF FAfter ks (flagF FSafe ks s).
+Lemma flag_with_products_mapg g k :
+  flag_with_products g k = mapg (subtreeF (step_subtree g k)) g.
+Proof. unfold flag_with_products. rewrite !flag_keys_mapg, mapg_mapg. reflexivity. Qed.
+Lemma subtreeF_only_flags ks : only_flags (subtreeF ks).
+Proof. apply (only_flags_comp _ _ (flagF_only_flags FSafe ks) (flagF_only_flags FAfter ks)). Qed.
+Lemma subtreeF_flags_head k ks s : s_key s = k -> s_chk_safe (subtreeF (k :: ks) s) = true.
+Proof.
+  intros E. unfold subtreeF.
+  apply (of_cs _ (flagF_only_flags FAfter (k :: ks))). unfold flagF.
+  assert (Hm : mem_N (s_key s) (k :: ks) = true) by (apply mem_N_In; left; symmetry; exact E).
+  rewrite Hm. reflexivity.
+Qed.
+
+(* any change of the hold counter that either flags the step or keeps "is holding" as it was *)
+Lemma hold_like_sound g k h (G : step -> step) :
+  only_flags G ->
+  (forall s, In s (g_steps g) -> s_key s = k ->
+     s_chk_safe (G (holdF k h s)) = true \/ (h (s_holding s) =? 0) = (s_holding s =? 0)) ->
+  FlagInv g -> FlagInv (mapg (fun s => G (holdF k h s)) g).
+Proof.
+  intros O Hk [HFs [HFn HFr]]. pose proof (of_keeps _ O) as K.
+  split; [|split].
+  - apply FlagInv_safe_mono; [|exact HFs]. constructor.
+    + intros s. rewrite (k_key _ K). apply holdF_props.
+    + intros s. rewrite (of_safe _ O). apply holdF_props.
+    + intros s. rewrite (of_safe_nh _ O). apply holdF_props.
+    + intros s H. apply (of_cs _ O).
+      destruct (holdF_props k h s) as [_ [_ [_ [_ [_ [_ [_ [_ [_ [_ [_ [-> _]]]]]]]]]]]]. exact H.
+    + intros x Hx Hc.
+      rewrite (ok_nh_keeps _ _ K), (ok_h_keeps _ _ K), (k_creator _ K).
+      destruct (holdF_props k h x) as [_ [_ [_ [_ [_ [_ [_ [_ [_ [_ [_ [_ [Hcr Hnh]]]]]]]]]]]]].
+      repeat split; [exact Hnh | | exact Hcr].
+      unfold ok_h. rewrite Hnh. f_equal. unfold holdF. destruct (s_key x =? k) eqn:E; [|reflexivity].
+      cbn [set_life s_holding]. apply N.eqb_eq in E.
+      destruct (Hk x Hx E) as [Hf|Hf]; [congruence | exact Hf].
+  - apply FlagInv_need_mono; [|exact HFn]. constructor; intros s;
+      destruct (holdF_props k h s) as [P1 [P2 [P3 [P4 [P5 [P6 [P7 _]]]]]]].
+    + rewrite (k_key _ K). exact P1.
+    + rewrite (k_need _ K). exact P2.
+    + rewrite (k_detached _ K). exact P3.
+    + rewrite (k_duration _ K). exact P4.
+    + rewrite (of_ineed _ O). exact P5.
+    + rewrite (of_tail _ O). exact P6.
+    + intros H. apply (of_ca _ O). rewrite P7. exact H.
+  - apply FlagInv_ready_mono; [| | |exact HFr]; intros s;
+      destruct (holdF_props k h s) as [P1 [_ [_ [_ [_ [_ [_ [P8 [P9 _]]]]]]]]].
+    + rewrite (k_key _ K). exact P1.
+    + rewrite (of_ready _ O). exact P8.
+    + intros H. apply (of_cr _ O). rewrite P9. exact H.
+Qed.
+
+Theorem hold_step_sound g k : WF g -> FlagInv g -> FlagInv (hold_step g k).
+Proof.
+  intros Hwf HF. unfold hold_step. destruct (find_step g k) as [s0|] eqn:E0; [|exact HF].
+  change (with_steps g (map (fun s => if s_key s =? k then set_life s (s_state s) (s_deferred s) (s_defer_count s) (s_holding s + 1) else s) (g_steps g)))
+    with (mapg (holdF k (fun x => x + 1)) g).
+  assert (Huniq : forall s, In s (g_steps g) -> s_key s = k -> s = s0).
+  { intros s Hs Hk. rewrite <- Hk in E0. rewrite (find_step_in g s Hwf Hs) in E0. congruence. }
+  destruct (s_holding s0 =? 0) eqn:Eh.
+  - rewrite flag_with_products_mapg, mapg_mapg.
+    apply (hold_like_sound g k (fun x => x + 1) (subtreeF (step_subtree (mapg (holdF k (fun x => x + 1)) g) k)));
+      [apply subtreeF_only_flags | | exact HF].
+    intros s Hs Hk. left. unfold step_subtree. apply subtreeF_flags_head.
+    rewrite <- Hk. apply holdF_props.
+  - apply (hold_like_sound g k (fun x => x + 1) (fun x => x)); [apply only_flags_id | | exact HF].
+    intros s Hs Hk. right. rewrite (Huniq s Hs Hk), Eh. apply N.eqb_neq. lia.
+Qed.
+
+Theorem release_step_sound g k g' : WF g -> FlagInv g -> release_step g k = Some g' -> FlagInv g'.
+Proof.
+  intros Hwf HF. unfold release_step. destruct (find_step g k) as [s0|] eqn:E0; [|discriminate].
+  destruct (s_holding s0 =? 0) eqn:Eh0; [discriminate|]. intros Hg. injection Hg as <-.
+  change (with_steps g (map (fun s => if s_key s =? k then set_life s (s_state s) (s_deferred s) (s_defer_count s) (s_holding s - 1) else s) (g_steps g)))
+    with (mapg (holdF k (fun x => x - 1)) g).
+  assert (Huniq : forall s, In s (g_steps g) -> s_key s = k -> s = s0).
+  { intros s Hs Hk. rewrite <- Hk in E0. rewrite (find_step_in g s Hwf Hs) in E0. congruence. }
+  destruct (s_holding s0 =? 1) eqn:Eh.
+  - rewrite flag_with_products_mapg, mapg_mapg.
+    apply (hold_like_sound g k (fun x => x - 1) (subtreeF (step_subtree (mapg (holdF k (fun x => x - 1)) g) k)));
+      [apply subtreeF_only_flags | | exact HF].
+    intros s Hs Hk. left. unfold step_subtree. apply subtreeF_flags_head.
+    rewrite <- Hk. apply holdF_props.
+  - apply (hold_like_sound g k (fun x => x - 1) (fun x => x)); [apply only_flags_id | | exact HF].
+    intros s Hs Hk. right. rewrite (Huniq s Hs Hk), Eh0.
+    apply N.eqb_neq in Eh0, Eh. apply N.eqb_neq. lia.
+Qed.
+
+(* ---- dependency insert / delete ---- *)
+
+Lemma maxl_set_ext d (f : N -> N) l1 l2 :
+  (forall x, In x l1 <-> In x l2) -> maxl d (map f l1) = maxl d (map f l2).
+Proof.
+  intros H. apply N.le_antisymm.
+  - destruct (maxl_cases d (map f l1)) as [->|Hin]; [apply maxl_ge|].
+    apply in_map_iff in Hin. destruct Hin as [x [Hx Hin]]. rewrite <- Hx.
+    apply maxl_in. apply in_map. apply H. exact Hin.
+  - destruct (maxl_cases d (map f l2)) as [->|Hin]; [apply maxl_ge|].
+    apply in_map_iff in Hin. destruct Hin as [x [Hx Hin]]. rewrite <- Hx.
+    apply maxl_in. apply in_map. apply H. exact Hin.
+Qed.
+
+Lemma cons_keys_spec g k y :
+  In y (cons_keys g k) <->
+  exists d1 d2 sy, In d1 (g_deps g) /\ In d2 (g_deps g) /\ d_src d1 = k /\ d_src d2 = d_snk d1 /\
+                   find_step g (d_snk d2) = Some sy /\ s_detached sy = false /\ y = s_key sy.
+Proof.
+  unfold cons_keys. split.
+  - intros H. apply in_flat_map in H. destruct H as [d1 [Hd1 H]].
+    destruct (d_src d1 =? k) eqn:E1; [|destruct H]. apply N.eqb_eq in E1.
+    apply in_flat_map in H. destruct H as [d2 [Hd2 H]].
+    destruct (d_src d2 =? d_snk d1) eqn:E2; [|destruct H]. apply N.eqb_eq in E2.
+    destruct (find_step g (d_snk d2)) as [sy|] eqn:Ef; [|destruct H].
+    destruct (s_detached sy) eqn:Ed; [destruct H|]. destruct H as [<-|[]].
+    exists d1, d2, sy. repeat split; assumption.
+  - intros [d1 [d2 [sy [Hd1 [Hd2 [E1 [E2 [Ef [Ed ->]]]]]]]]].
+    apply in_flat_map. exists d1. split; [exact Hd1|].
+    apply N.eqb_eq in E1. rewrite E1. apply in_flat_map. exists d2. split; [exact Hd2|].
+    apply N.eqb_eq in E2. rewrite E2, Ef, Ed. left. reflexivity.
+Qed.
+
+(* the general step: edges change to deps', flags are raised by F *)
+Lemma FlagInv_need_deps g deps' F :
+  only_flags F ->
+  (forall s, In s (g_steps g) -> s_detached s = false -> s_chk_after (F s) = false ->
+     (forall y, In y (cons_keys (with_deps g deps') (s_key s)) -> ~ In y (seed0 (mapg F (with_deps g deps')))) ->
+     (forall y, In y (cons_keys (with_deps g deps') (s_key s)) <-> In y (cons_keys g (s_key s))) /\
+     local_k (with_deps g deps') (s_key s) = local_k g (s_key s)) ->
+  FlagInv_need g -> FlagInv_need (mapg F (with_deps g deps')).
+Proof.
+  intros O H2 HF s' Hin' Hd Hc Hy.
+  set (g1 := with_deps g deps') in *.
+  pose proof (only_flags_need_mono F O) as M. pose proof (of_keeps F O) as K.
+  unfold mapg in Hin'. cbn [g_steps with_steps] in Hin'.
+  apply in_map_iff in Hin'. destruct Hin' as [s [<- Hin]].
+  change (In s (g_steps g)) in Hin.
+  rewrite (nm_detached F M) in Hd. rewrite (nm_key F M) in *.
+  rewrite (nm_cons_keys F M g1) in Hy.
+  destruct (H2 s Hin Hd Hc Hy) as [Hset Hloc].
+  rewrite (nm_ineed F M), (nm_new_val F M g1).
+  assert (Hs0 : s_chk_after s = false).
+  { destruct (s_chk_after s) eqn:E; [|reflexivity]. rewrite (nm_ca F M s E) in Hc. discriminate. }
+  rewrite (HF s Hin Hd Hs0).
+  - unfold new_val. cbn [fst]. rewrite Hloc. f_equal.
+    symmetry. apply (maxl_set_ext _ (fun y => fst (vals_of g1 y))). exact Hset.
+  - intros y Hyc Hys. apply (Hy y); [apply Hset; exact Hyc|].
+    apply (nm_seed0 F M g1). exact Hys.
+Qed.
+
+Lemma outputs_other g deps' k :
+  (forall e, In e deps' -> d_src e = k -> In e (g_deps g)) ->
+  (forall e, In e (g_deps g) -> d_src e = k -> In e deps') ->
+  forall f, In f (outputs (with_deps g deps') k) <-> In f (outputs g k).
+Proof.
+  intros H1 H2 f. unfold outputs. cbn [g_deps with_deps]. rewrite !in_flat_map.
+  split; intros [e [He Hf]]; exists e; (split; [|exact Hf]);
+    destruct (d_src e =? k) eqn:E; try (destruct Hf; fail); apply N.eqb_eq in E; auto.
+Qed.
+
+Lemma existsb_set_ext {A} (p : A -> bool) l1 l2 :
+  (forall x, In x l1 <-> In x l2) -> existsb p l1 = existsb p l2.
+Proof.
+  intros H. destruct (existsb p l1) eqn:E1; destruct (existsb p l2) eqn:E2; try reflexivity.
+  - apply existsb_exists in E1. destruct E1 as [x [Hx Hp]].
+    assert (existsb p l2 = true) by (apply existsb_exists; exists x; split; [apply H; exact Hx | exact Hp]).
+    congruence.
+  - apply existsb_exists in E2. destruct E2 as [x [Hx Hp]].
+    assert (existsb p l1 = true) by (apply existsb_exists; exists x; split; [apply H; exact Hx | exact Hp]).
+    congruence.
+Qed.
+
+Lemma local_k_other g deps' k :
+  (forall e, In e deps' -> d_src e = k -> In e (g_deps g)) ->
+  (forall e, In e (g_deps g) -> d_src e = k -> In e deps') ->
+  local_k (with_deps g deps') k = local_k g k.
+Proof.
+  intros H1 H2. unfold local_k. change (find_step (with_deps g deps') k) with (find_step g k).
+  destruct (find_step g k) as [s|] eqn:E; [|reflexivity]. apply find_step_some in E. destruct E as [_ E].
+  unfold local_need, elev. rewrite E.
+  change (g_targets (with_deps g deps')) with (g_targets g).
+  rewrite (existsb_set_ext (fun f => regular_output f && is_target (with_deps g deps') f) _ _ (outputs_other g deps' k H1 H2)).
+  rewrite (existsb_set_ext (fun f => regular_output f && in_tdir (with_deps g deps') f) _ _ (outputs_other g deps' k H1 H2)).
+  reflexivity.
+Qed.
+
+Definition same_ends (a b : dep) : Prop := d_src a = d_src b /\ d_snk a = d_snk b.
+Lemma dep_eqb_spec a b : dep_eqb a b = true <-> same_ends a b.
+Proof. unfold dep_eqb, same_ends. rewrite andb_true_iff, !N.eqb_eq. tauto. Qed.
+
+(* the trigger of a dependency row: F is its step map, evaluated on the new edge table *)
+Lemma dep_trigger_flags g1 trg d c t s :
+  In (c, t) trg -> In (s_key s) (target_keys g1 0 (Some d) t) ->
+  has_flag c (trigF g1 trg 0 (Some d) s) = true.
+Proof. apply trigF_sets. Qed.
+
+Lemma seed0_flagged g s : In s (g_steps g) -> s_detached s = false -> s_chk_after s = true ->
+  In (s_key s) (seed0 g).
+Proof.
+  intros Hin Hd Hc. unfold seed0. apply in_map. apply filter_In. split; [exact Hin|].
+  rewrite Hd, Hc. reflexivity.
+Qed.
+
+(* INSERT INTO dependency (the dynamic marker does not matter for _implied_need) *)
+Theorem ins_edge_need_sound g trg d :
+  WF g -> In (FAfter, TSource) trg -> In (FAfter, TSink) trg ->
+  FlagInv_need g ->
+  FlagInv_need (run_trigger trg 0 (Some d) (with_deps g (g_deps g ++ [mkDep (d_src d) (d_snk d) false]))).
+Proof.
+  intros Hwf Hsrc Hsnk HF. rewrite run_trigger_mapg.
+  set (deps' := g_deps g ++ [mkDep (d_src d) (d_snk d) false]).
+  set (g1 := with_deps g deps').
+  pose proof (trigF_only_flags g1 trg 0 (Some d)) as O.
+  apply FlagInv_need_deps; [exact O| |exact HF].
+  intros s Hin Hd Hc Hy. fold g1 in Hy.
+  assert (Hne : s_key s <> d_src d).
+  { intros E. assert (Hf := dep_trigger_flags g1 trg d FAfter TSource s Hsrc).
+    cbn [target_keys has_flag] in Hf. rewrite Hf in Hc; [discriminate | left; symmetry; exact E]. }
+  split.
+  - intros y. rewrite !cons_keys_spec. change (find_step g1) with (find_step g).
+    split.
+    + intros [d1 [d2 [sy [Hd1 [Hd2 [E1 [E2 [Ef [Ed ->]]]]]]]]].
+      unfold g1, deps' in Hd1, Hd2. cbn [g_deps with_deps] in Hd1, Hd2.
+      apply in_app_or in Hd1. apply in_app_or in Hd2.
+      destruct Hd1 as [Hd1|[<-|[]]]; [|cbn in E1; congruence].
+      destruct Hd2 as [Hd2|[<-|[]]].
+      * exists d1, d2, sy. repeat split; assumption.
+      * (* the new edge leads to an attached step: it was flagged by the trigger *)
+        exfalso. cbn [d_snk d_src] in *.
+        apply find_step_some in Ef. destruct Ef as [Hsy Eky].
+        apply (Hy (s_key sy)).
+        -- apply cons_keys_spec. exists d1, (mkDep (d_src d) (d_snk d) false), sy.
+           change (find_step g1) with (find_step g).
+           repeat split; try assumption.
+           ++ unfold g1, deps'. cbn [g_deps with_deps]. apply in_or_app. left. exact Hd1.
+           ++ unfold g1, deps'. cbn [g_deps with_deps]. apply in_or_app. right. left. reflexivity.
+           ++ rewrite <- Eky. apply find_step_in; assumption.
+        -- pose proof (of_keeps _ O) as K.
+           rewrite <- (k_key _ K sy). apply seed0_flagged.
+           ++ unfold mapg. cbn [g_steps with_steps]. apply in_map. exact Hsy.
+           ++ rewrite (k_detached _ K). exact Ed.
+           ++ apply (dep_trigger_flags g1 trg d FAfter TSink sy Hsnk). cbn [target_keys]. left. symmetry. exact Eky.
+    + intros [d1 [d2 [sy [Hd1 [Hd2 R]]]]]. exists d1, d2, sy.
+      split; [unfold g1, deps'; cbn [g_deps with_deps]; apply in_or_app; left; exact Hd1|].
+      split; [unfold g1, deps'; cbn [g_deps with_deps]; apply in_or_app; left; exact Hd2|]. exact R.
+  - apply local_k_other.
+    + intros e He Es. unfold deps' in He. apply in_app_or in He. destruct He as [He|[<-|[]]]; [exact He|].
+      cbn in Es. congruence.
+    + intros e He _. unfold deps'. apply in_or_app. left. exact He.
+Qed.
+
+(* DELETE FROM dependency *)
+Theorem del_edge_need_sound g trg d :
+  WF g -> In (FAfter, TSource) trg ->
+  (In (FAfter, TProducersOfSource) trg \/
+   (forall sy, find_step g (d_snk d) = Some sy -> s_detached sy = true)) ->
+  FlagInv_need g ->
+  FlagInv_need (run_trigger trg 0 (Some d) (with_deps g (filter (fun e => negb (dep_eqb e d)) (g_deps g)))).
+Proof.
+  intros Hwf Hsrc Hprod HF. rewrite run_trigger_mapg.
+  set (deps' := filter (fun e => negb (dep_eqb e d)) (g_deps g)).
+  set (g1 := with_deps g deps').
+  pose proof (trigF_only_flags g1 trg 0 (Some d)) as O.
+  assert (Hsub : forall e, In e deps' -> In e (g_deps g)).
+  { intros e He. unfold deps' in He. apply filter_In in He. tauto. }
+  assert (Hkeep : forall e, In e (g_deps g) -> ~ same_ends e d -> In e deps').
+  { intros e He Hn. unfold deps'. apply filter_In. split; [exact He|].
+    apply negb_true_iff. destruct (dep_eqb e d) eqn:E; [|reflexivity].
+    apply dep_eqb_spec in E. contradiction. }
+  apply FlagInv_need_deps; [exact O| |exact HF].
+  intros s Hin Hd Hc Hy. fold g1 in Hy.
+  assert (Hne : s_key s <> d_src d).
+  { intros E. assert (Hf := dep_trigger_flags g1 trg d FAfter TSource s Hsrc).
+    cbn [target_keys has_flag] in Hf. rewrite Hf in Hc; [discriminate | left; symmetry; exact E]. }
+  split.
+  - intros y. rewrite !cons_keys_spec. change (find_step g1) with (find_step g).
+    split.
+    + intros [d1 [d2 [sy [Hd1 [Hd2 R]]]]]. exists d1, d2, sy.
+      split; [apply Hsub; exact Hd1|]. split; [apply Hsub; exact Hd2|]. exact R.
+    + intros [d1 [d2 [sy [Hd1 [Hd2 [E1 [E2 [Ef [Ed ->]]]]]]]]].
+      assert (Hn1 : ~ same_ends d1 d) by (intros [A _]; congruence).
+      destruct (dep_eqb d2 d) eqn:E2d.
+      * exfalso. apply dep_eqb_spec in E2d. destruct E2d as [A B].
+        destruct Hprod as [Hprod|Hprod].
+        -- (* s produces the source file of the deleted edge: the trigger flagged it *)
+           assert (Hf := dep_trigger_flags g1 trg d FAfter TProducersOfSource s Hprod).
+           cbn [target_keys has_flag] in Hf. rewrite Hf in Hc; [discriminate|].
+           unfold producers_of_node. apply in_map_iff. exists d1. split; [exact E1|].
+           apply filter_In. split; [unfold g1; cbn [g_deps with_deps]; apply Hkeep; assumption|].
+           apply N.eqb_eq. congruence.
+        -- rewrite B in Ef. rewrite (Hprod sy Ef) in Ed. discriminate.
+      * exists d1, d2, sy.
+        split; [unfold g1; cbn [g_deps with_deps]; apply Hkeep; assumption|].
+        split; [unfold g1; cbn [g_deps with_deps]; apply Hkeep; [exact Hd2|]|].
+        -- intros Hse. apply dep_eqb_spec in Hse. congruence.
+        -- repeat split; assumption.
+  - apply local_k_other.
+    + intros e He _. apply Hsub. exact He.
+    + intros e He Es. apply Hkeep; [exact He|]. intros [A _]. congruence.
+Qed.
+
+(* ---- the dynamic marker and the complete insert / delete primitives ---- *)
+
+Lemma flat_map_map {A B C} (f : B -> list C) (m : A -> B) l :
+  flat_map f (map m l) = flat_map (fun x => f (m x)) l.
+Proof. induction l as [|a l IH]; [reflexivity|]. cbn [map flat_map]. rewrite IH. reflexivity. Qed.
+
+Section Marker.
+  Variable m : dep -> dep.
+  Hypothesis Hm : forall e, d_src (m e) = d_src e /\ d_snk (m e) = d_snk e.
+  Variable g : graph.
+  Let g' := with_deps g (map m (g_deps g)).
+
+  Lemma marker_cons_keys k : cons_keys g' k = cons_keys g k.
+  Proof.
+    unfold cons_keys, g'. cbn [g_deps with_deps]. rewrite flat_map_map.
+    apply flat_map_ext. intros d1. destruct (Hm d1) as [-> ->].
+    destruct (d_src d1 =? k); [|reflexivity]. rewrite flat_map_map.
+    apply flat_map_ext. intros d2. destruct (Hm d2) as [-> ->]. reflexivity.
+  Qed.
+
+  Lemma marker_outputs k : outputs g' k = outputs g k.
+  Proof.
+    unfold outputs, g'. cbn [g_deps with_deps]. rewrite flat_map_map.
+    apply flat_map_ext. intros e. destruct (Hm e) as [-> ->]. reflexivity.
+  Qed.
+
+  Lemma marker_local_k k : local_k g' k = local_k g k.
+  Proof.
+    unfold local_k. change (find_step g' k) with (find_step g k).
+    destruct (find_step g k) as [s|]; [|reflexivity].
+    unfold local_need, elev. rewrite marker_outputs. reflexivity.
+  Qed.
+
+  Lemma marker_need : FlagInv_need g -> FlagInv_need g'.
+  Proof.
+    intros HF s Hin Hd Hc Hy. change (In s (g_steps g)) in Hin.
+    rewrite marker_cons_keys in Hy. change (seed0 g') with (seed0 g) in Hy.
+    unfold new_val. rewrite marker_local_k, marker_cons_keys.
+    change (vals_of g') with (vals_of g). apply (HF s Hin Hd Hc Hy).
+  Qed.
+End Marker.
+
+Lemma FlagInv_need_only_flags F g : only_flags F -> FlagInv_need g -> FlagInv_need (mapg F g).
+Proof. intros O. apply FlagInv_need_mono. apply only_flags_need_mono. exact O. Qed.
+
+Definition markF (d : dep) (b : bool) (e : dep) : dep :=
+  if dep_eqb e d then mkDep (d_src e) (d_snk e) b else e.
+Lemma markF_ends d b e : d_src (markF d b e) = d_src e /\ d_snk (markF d b e) = d_snk e.
+Proof. unfold markF. destruct (dep_eqb e d); split; reflexivity. Qed.
+
+Theorem ins_dep_need_sound g trg d :
+  WF g -> In (FAfter, TSource) trg -> In (FAfter, TSink) trg ->
+  FlagInv_need g -> FlagInv_need (ins_dep_with trg g d).
+Proof.
+  intros Hwf H1 H2 HF. unfold ins_dep_with.
+  pose proof (ins_edge_need_sound g trg d Hwf H1 H2 HF) as Hs.
+  destruct (d_dyn d); [|exact Hs].
+  rewrite run_trigger_mapg. apply FlagInv_need_only_flags; [apply trigF_only_flags|].
+  apply (marker_need (markF d true) (markF_ends d true)). exact Hs.
+Qed.
+
+Lemma WF_with_deps g l : WF g -> WF (with_deps g l).
+Proof. intros H. exact H. Qed.
+
+Theorem del_dep_need_sound g trg d :
+  WF g -> In (FAfter, TSource) trg ->
+  (In (FAfter, TProducersOfSource) trg \/
+   (forall sy, find_step g (d_snk d) = Some sy -> s_detached sy = true)) ->
+  FlagInv_need g -> FlagInv_need (del_dep_with trg g d).
+Proof.
+  intros Hwf H1 H2 HF. unfold del_dep_with.
+  destruct (d_dyn d).
+  - rewrite (run_trigger_mapg trg_dyn_del).
+    set (g0 := with_deps g (map (fun e => if dep_eqb e d then mkDep (d_src e) (d_snk e) false else e) (g_deps g))).
+    set (T := trigF g0 trg_dyn_del 0 (Some d)).
+    pose proof (trigF_only_flags g0 trg_dyn_del 0 (Some d)) as O. fold T in O.
+    apply del_edge_need_sound.
+    + apply WF_mapg; [apply O | exact Hwf].
+    + exact H1.
+    + destruct H2 as [H2|H2]; [left; exact H2 | right].
+      intros sy Hf. rewrite find_step_mapg in Hf by apply O.
+      change (find_step g0 (d_snk d)) with (find_step g (d_snk d)) in Hf.
+      destruct (find_step g (d_snk d)) as [sy0|] eqn:E; [|discriminate]. cbn in Hf. injection Hf as <-.
+      rewrite (k_detached _ (of_keeps _ O)). apply H2. reflexivity.
+    + apply FlagInv_need_only_flags; [exact O|].
+      apply (marker_need (markF d false) (markF_ends d false)). exact HF.
+  - apply del_edge_need_sound; assumption.
+Qed.
+
+(* _safe does not read the edge table *)
+Lemma aflag_with_deps g l n s : aflag n (with_deps g l) s = aflag n g s.
+Proof.
+  revert s. induction n as [|n IH]; intros s; [reflexivity|]. cbn [aflag].
+  change (creator_step (with_deps g l) s) with (creator_step g s).
+  destruct (creator_step g s); [rewrite IH|]; reflexivity.
+Qed.
+Lemma safe_fuel_with_deps g l n s : safe_fuel n (with_deps g l) s = safe_fuel n g s.
+Proof.
+  revert s. induction n as [|n IH]; intros s; [reflexivity|]. cbn [safe_fuel].
+  change (creator_step (with_deps g l) s) with (creator_step g s).
+  destruct (creator_step g s); [rewrite IH|]; reflexivity.
+Qed.
+Lemma FlagInv_safe_with_deps g l : FlagInv_safe g -> FlagInv_safe (with_deps g l).
+Proof.
+  intros HF s Hin Ha. unfold L, safe_spec in *. change (g_steps (with_deps g l)) with (g_steps g) in *.
+  rewrite aflag_with_deps in Ha. rewrite safe_fuel_with_deps. exact (HF s Hin Ha).
+Qed.
+
+Lemma FlagInv_safe_only_flags F g : only_flags F -> FlagInv_safe g -> FlagInv_safe (mapg F g).
+Proof. intros O. apply FlagInv_safe_mono. apply only_flags_safe_mono. exact O. Qed.
+
+Theorem ins_dep_safe_sound g trg d : FlagInv_safe g -> FlagInv_safe (ins_dep_with trg g d).
+Proof.
+  intros HF. unfold ins_dep_with.
+  assert (Hs : FlagInv_safe (run_trigger trg 0 (Some d) (with_deps g (g_deps g ++ [mkDep (d_src d) (d_snk d) false])))).
+  { rewrite run_trigger_mapg. apply FlagInv_safe_only_flags; [apply trigF_only_flags|].
+    apply FlagInv_safe_with_deps. exact HF. }
+  destruct (d_dyn d); [|exact Hs].
+  rewrite run_trigger_mapg. apply FlagInv_safe_only_flags; [apply trigF_only_flags|].
+  apply FlagInv_safe_with_deps. exact Hs.
+Qed.
+
+Theorem del_dep_safe_sound g trg d : FlagInv_safe g -> FlagInv_safe (del_dep_with trg g d).
+Proof.
+  intros HF. unfold del_dep_with.
+  rewrite (run_trigger_mapg trg). apply FlagInv_safe_only_flags; [apply trigF_only_flags|].
+  apply FlagInv_safe_with_deps.
+  destruct (d_dyn d); [|exact HF].
+  rewrite run_trigger_mapg. apply FlagInv_safe_only_flags; [apply trigF_only_flags|].
+  apply FlagInv_safe_with_deps. exact HF.
+Qed.
+
+(* ---- _ready under edge changes ---- *)
+
+Lemma ready_spec_filter g k :
+  ready_spec g k = negb (existsb (unavailable g) (filter (fun e => d_snk e =? k) (g_deps g))).
+Proof.
+  unfold ready_spec. f_equal. induction (g_deps g) as [|e l IH]; [reflexivity|].
+  cbn [existsb filter]. destruct (d_snk e =? k); cbn [andb orb existsb]; rewrite IH; reflexivity.
+Qed.
+
+Lemma FlagInv_ready_deps g deps' F t :
+  (forall k, k <> t -> ready_spec (with_deps g deps') k = ready_spec g k) ->
+  (forall s, s_key (F s) = s_key s) -> (forall s, s_ready (F s) = s_ready s) ->
+  (forall s, s_chk_ready s = true -> s_chk_ready (F s) = true) ->
+  (forall s, In s (g_steps g) -> s_key s = t -> s_chk_ready (F s) = true) ->
+  FlagInv_ready g -> FlagInv_ready (mapg F (with_deps g deps')).
+Proof.
+  intros Hspec Hk Hr Hc Ht HF s' Hin' Hchk. unfold mapg in Hin'. cbn [g_steps with_steps] in Hin'.
+  apply in_map_iff in Hin'. destruct Hin' as [s [<- Hin]]. change (In s (g_steps g)) in Hin.
+  rewrite Hr, Hk. unfold mapg. rewrite ready_spec_steps.
+  destruct (N.eq_dec (s_key s) t) as [E|E]; [rewrite (Ht s Hin E) in Hchk; discriminate|].
+  rewrite (Hspec _ E). apply HF; [exact Hin|].
+  destruct (s_chk_ready s) eqn:Ec; [rewrite (Hc s Ec) in Hchk; discriminate | reflexivity].
+Qed.
+
+Lemma unavailable_markF g l d b e : dep_eqb e d = false -> unavailable (with_deps g l) (markF d b e) = unavailable g e.
+Proof. intros H. unfold markF. rewrite H. reflexivity. Qed.
+
+Lemma ready_spec_mark g d b k : k <> d_snk d ->
+  ready_spec (with_deps g (map (markF d b) (g_deps g))) k = ready_spec g k.
+Proof.
+  intros Hk.
+  assert (H : forall l, existsb (fun e => (d_snk e =? k) && unavailable g e) (map (markF d b) l)
+                        = existsb (fun e => (d_snk e =? k) && unavailable g e) l).
+  { induction l as [|e l IH]; [reflexivity|].
+    cbn [map existsb]. rewrite IH. f_equal.
+    destruct (dep_eqb e d) eqn:E.
+    - apply dep_eqb_spec in E. destruct E as [_ E].
+      destruct (markF_ends d b e) as [_ ->].
+      assert (Hf : (d_snk e =? k) = false) by (apply N.eqb_neq; congruence).
+      rewrite Hf. reflexivity.
+    - unfold markF. rewrite E. reflexivity. }
+  unfold ready_spec. f_equal. exact (H (g_deps g)).
+Qed.
+
+Lemma ready_spec_append g d0 k : k <> d_snk d0 ->
+  ready_spec (with_deps g (g_deps g ++ [d0])) k = ready_spec g k.
+Proof.
+  intros Hk.
+  assert (H : forall l, existsb (fun e => (d_snk e =? k) && unavailable g e) (l ++ [d0])
+                        = existsb (fun e => (d_snk e =? k) && unavailable g e) l).
+  { intros l. rewrite existsb_app. cbn [existsb].
+    assert (Hf : (d_snk d0 =? k) = false) by (apply N.eqb_neq; congruence).
+    rewrite Hf. cbn. rewrite !orb_false_r. reflexivity. }
+  unfold ready_spec. f_equal. exact (H (g_deps g)).
+Qed.
+
+Lemma ready_spec_remove g d k : k <> d_snk d ->
+  ready_spec (with_deps g (filter (fun e => negb (dep_eqb e d)) (g_deps g))) k = ready_spec g k.
+Proof.
+  intros Hk.
+  assert (H : forall l, existsb (fun e => (d_snk e =? k) && unavailable g e) (filter (fun e => negb (dep_eqb e d)) l)
+                        = existsb (fun e => (d_snk e =? k) && unavailable g e) l).
+  { induction l as [|e l IH]; [reflexivity|].
+    cbn [filter existsb]. destruct (dep_eqb e d) eqn:E; cbn [negb existsb]; rewrite IH; [|reflexivity].
+    apply dep_eqb_spec in E. destruct E as [_ E].
+    assert (Hf : (d_snk e =? k) = false) by (apply N.eqb_neq; congruence).
+    rewrite Hf. reflexivity. }
+  unfold ready_spec. f_equal. exact (H (g_deps g)).
+Qed.
+
+Lemma trigger_flags_sink g1 trg d s :
+  In (FReady, TSink) trg \/ In (FReady, TSinkOfDep) trg -> s_key s = d_snk d ->
+  s_chk_ready (trigF g1 trg 0 (Some d) s) = true.
+Proof.
+  intros [H|H] E.
+  - apply (trigF_sets g1 trg 0 (Some d) FReady TSink s H). cbn. left. symmetry. exact E.
+  - apply (trigF_sets g1 trg 0 (Some d) FReady TSinkOfDep s H). cbn. left. symmetry. exact E.
+Qed.
+
+Lemma ready_stage g deps' trg d :
+  (forall k, k <> d_snk d -> ready_spec (with_deps g deps') k = ready_spec g k) ->
+  (In (FReady, TSink) trg \/ In (FReady, TSinkOfDep) trg) ->
+  FlagInv_ready g -> FlagInv_ready (run_trigger trg 0 (Some d) (with_deps g deps')).
+Proof.
+  intros Hspec Hin HF. rewrite run_trigger_mapg.
+  pose proof (trigF_only_flags (with_deps g deps') trg 0 (Some d)) as O.
+  apply (FlagInv_ready_deps g deps' _ (d_snk d)); try assumption.
+  - intros s. apply (k_key _ (of_keeps _ O)).
+  - intros s. apply (of_ready _ O).
+  - intros s. apply (of_cr _ O).
+  - intros s _ E. apply trigger_flags_sink; assumption.
+Qed.
+
+Theorem ins_dep_ready_sound g trg d :
+  In (FReady, TSink) trg -> In (FReady, TSinkOfDep) trg_dyn_ins ->
+  FlagInv_ready g -> FlagInv_ready (ins_dep_with trg g d).
+Proof.
+  intros H1 H2 HF. unfold ins_dep_with.
+  assert (Hs : FlagInv_ready (run_trigger trg 0 (Some d) (with_deps g (g_deps g ++ [mkDep (d_src d) (d_snk d) false])))).
+  { apply ready_stage; [|left; exact H1|exact HF]. intros k Hk. apply ready_spec_append. exact Hk. }
+  destruct (d_dyn d); [|exact Hs].
+  apply ready_stage; [|right; exact H2|exact Hs].
+  intros k Hk. apply (ready_spec_mark _ d true k Hk).
+Qed.
+
+Theorem del_dep_ready_sound g trg d :
+  In (FReady, TSink) trg -> In (FReady, TSinkOfDep) trg_dyn_del ->
+  FlagInv_ready g -> FlagInv_ready (del_dep_with trg g d).
+Proof.
+  intros H1 H2 HF. unfold del_dep_with.
+  apply ready_stage; [|left; exact H1|].
+  - intros k Hk. apply ready_spec_remove. exact Hk.
+  - destruct (d_dyn d); [|exact HF].
+    apply ready_stage; [|right; exact H2|exact HF].
+    intros k Hk. apply (ready_spec_mark _ d false k Hk).
+Qed.
+
+(* ---- File.set_state ---- *)
+
+Definition fstateF (k st : N) (h : bool) (f : file) : file := if f_key f =? k then set_fstate f st h else f.
+
+Lemma find_file_map g k st h x :
+  find_file (with_files g (map (fstateF k st h) (g_files g))) x = option_map (fstateF k st h) (find_file g x).
+Proof.
+  unfold find_file. cbn [g_files with_files].
+  induction (g_files g) as [|a l IH]; [reflexivity|].
+  cbn [map find].
+  assert (Hk : f_key (fstateF k st h a) = f_key a) by (unfold fstateF; destruct (f_key a =? k); reflexivity).
+  rewrite Hk. destruct (f_key a =? x); [reflexivity | exact IH].
+Qed.
+
+Lemma aflag_with_files g l n s : aflag n (with_files g l) s = aflag n g s.
+Proof.
+  revert s. induction n as [|n IH]; intros s; [reflexivity|]. cbn [aflag].
+  change (creator_step (with_files g l) s) with (creator_step g s).
+  destruct (creator_step g s); [rewrite IH|]; reflexivity.
+Qed.
+Lemma safe_fuel_with_files g l n s : safe_fuel n (with_files g l) s = safe_fuel n g s.
+Proof.
+  revert s. induction n as [|n IH]; intros s; [reflexivity|]. cbn [safe_fuel].
+  change (creator_step (with_files g l) s) with (creator_step g s).
+  destruct (creator_step g s); [rewrite IH|]; reflexivity.
+Qed.
+Lemma FlagInv_safe_with_files g l : FlagInv_safe g -> FlagInv_safe (with_files g l).
+Proof.
+  intros HF s Hin Ha. unfold L, safe_spec in *. change (g_steps (with_files g l)) with (g_steps g) in *.
+  rewrite aflag_with_files in Ha. rewrite safe_fuel_with_files. exact (HF s Hin Ha).
+Qed.
+
+Theorem set_file_state_safe_sound g k st h : FlagInv_safe g -> FlagInv_safe (set_file_state g k st h).
+Proof.
+  intros HF. unfold set_file_state. destruct (find_file g k); [|exact HF].
+  destruct (negb trg_file_state_upd_on_change_only || negb (f_state f =? st)).
+  - rewrite run_trigger_mapg. apply FlagInv_safe_only_flags; [apply trigF_only_flags|].
+    apply FlagInv_safe_with_files. exact HF.
+  - apply FlagInv_safe_with_files. exact HF.
+Qed.
+
+(* _ready: a general step for graphs with the same step list *)
+Lemma FlagInv_ready_gen g g1 F (P : N -> Prop) :
+  g_steps g1 = g_steps g ->
+  (forall k, ~ P k -> ready_spec g1 k = ready_spec g k) ->
+  (forall s, s_key (F s) = s_key s) -> (forall s, s_ready (F s) = s_ready s) ->
+  (forall s, s_chk_ready s = true -> s_chk_ready (F s) = true) ->
+  (forall s, In s (g_steps g) -> P (s_key s) -> s_chk_ready (F s) = true) ->
+  (forall k, P k \/ ~ P k) ->
+  FlagInv_ready g -> FlagInv_ready (mapg F g1).
+Proof.
+  intros Hst Hspec Hk Hr Hc Ht Hdec HF s' Hin' Hchk. unfold mapg in Hin'. cbn [g_steps with_steps] in Hin'.
+  rewrite Hst in Hin'. apply in_map_iff in Hin'. destruct Hin' as [s [<- Hin]].
+  rewrite Hr, Hk. unfold mapg. rewrite ready_spec_steps.
+  destruct (Hdec (s_key s)) as [E|E]; [rewrite (Ht s Hin E) in Hchk; discriminate|].
+  rewrite (Hspec _ E). apply HF; [exact Hin|].
+  destruct (s_chk_ready s) eqn:Ec; [rewrite (Hc s Ec) in Hchk; discriminate | reflexivity].
+Qed.
+
+Lemma unavailable_fstate_other g k st h e : d_src e <> k ->
+  unavailable (with_files g (map (fstateF k st h) (g_files g))) e = unavailable g e.
+Proof.
+  intros H. unfold unavailable. rewrite find_file_map.
+  destruct (find_file g (d_src e)) as [f|] eqn:E; [|reflexivity]. cbn [option_map].
+  unfold fstateF. destruct (f_key f =? k) eqn:Ek; [|reflexivity].
+  apply N.eqb_eq in Ek. unfold find_file in E. apply find_some in E. destruct E as [_ E].
+  apply N.eqb_eq in E. congruence.
+Qed.
+
+Lemma unavailable_fstate_same g k st h e f0 : find_file g k = Some f0 -> f_state f0 = st ->
+  unavailable (with_files g (map (fstateF k st h) (g_files g))) e = unavailable g e.
+Proof.
+  intros Hf Hst. destruct (N.eq_dec (d_src e) k) as [E|E]; [|apply unavailable_fstate_other; exact E].
+  unfold unavailable. rewrite find_file_map, E, Hf. cbn [option_map].
+  unfold fstateF. destruct (f_key f0 =? k); [|reflexivity].
+  rewrite <- Hst. reflexivity.
+Qed.
+
+Lemma ready_spec_ext g1 g t : g_deps g1 = g_deps g ->
+  (forall e, In e (g_deps g) -> d_snk e = t -> unavailable g1 e = unavailable g e) ->
+  ready_spec g1 t = ready_spec g t.
+Proof.
+  intros Hd H. unfold ready_spec. rewrite Hd. f_equal. clear Hd.
+  induction (g_deps g) as [|e l IH]; [reflexivity|].
+  cbn [existsb]. rewrite IH by (intros; apply H; [right|]; assumption). f_equal.
+  destruct (d_snk e =? t) eqn:E; [|reflexivity]. apply N.eqb_eq in E.
+  rewrite (H e (or_introl eq_refl) E). reflexivity.
+Qed.
+
+Theorem set_file_state_ready_sound g k st h :
+  In (FReady, TConsumersOfSelf) trg_file_state_upd ->
+  FlagInv_ready g -> FlagInv_ready (set_file_state g k st h).
+Proof.
+  intros Htrg HF. unfold set_file_state. destruct (find_file g k) as [f0|] eqn:Ef; [|exact HF].
+  set (g1 := with_files g (map (fun f => if f_key f =? k then set_fstate f st h else f) (g_files g))).
+  change g1 with (with_files g (map (fstateF k st h) (g_files g))) in *.
+  destruct (f_state f0 =? st) eqn:Est.
+  - (* state unchanged: nothing that _ready reads changes *)
+    apply N.eqb_eq in Est.
+    assert (Hsame : FlagInv_ready g1).
+    { intros s Hin Hc. change (In s (g_steps g)) in Hin. rewrite (HF s Hin Hc). symmetry.
+      apply ready_spec_ext; [reflexivity|]. intros e _ _. eapply unavailable_fstate_same; eassumption. }
+    destruct (negb trg_file_state_upd_on_change_only || negb true) eqn:Ec; [|exact Hsame].
+    rewrite run_trigger_mapg. pose proof (trigF_only_flags g1 trg_file_state_upd k None) as O.
+    apply FlagInv_ready_mono; try exact Hsame; intros s; [apply (k_key _ (of_keeps _ O)) | apply (of_ready _ O) | apply (of_cr _ O)].
+  - rewrite orb_true_r. rewrite run_trigger_mapg.
+    pose proof (trigF_only_flags g1 trg_file_state_upd k None) as O.
+    apply (FlagInv_ready_gen g g1 _ (fun t => In t (consumers_of_node g k))); try reflexivity; try exact HF.
+    + intros t Ht. apply ready_spec_ext; [reflexivity|]. intros e He Es.
+      apply unavailable_fstate_other. intros Ek. apply Ht. unfold consumers_of_node.
+      apply in_map_iff. exists e. split; [exact Es|]. apply filter_In. split; [exact He | apply N.eqb_eq; exact Ek].
+    + intros s. apply (k_key _ (of_keeps _ O)).
+    + intros s. apply (of_ready _ O).
+    + intros s. apply (of_cr _ O).
+    + intros s _ Hs. apply (trigF_sets g1 trg_file_state_upd k None FReady TConsumersOfSelf s Htrg). exact Hs.
+    + intros t. destruct (in_dec N.eq_dec t (consumers_of_node g k)); [left | right]; assumption.
+Qed.
+
+(* ------------------------------------------------------------------------------------------ *)
+(* C11: what need_spec means                                                                  *)
+(* ------------------------------------------------------------------------------------------ *)
+
+Lemma local_k_ge g k : after_sink_default <= local_k g k.
+Proof.
+  unfold local_k. destruct (find_step g k) as [s|]; [|lia].
+  unfold local_need, elev, after_sink_default, after_elev_target, after_elev_none.
+  destruct (existsb _ _); [lia|]. destruct (_ && _); lia.
+Qed.
+
+Lemma need_fuel_ge g n k : after_sink_default <= need_fuel n g k.
+Proof. destruct n; cbn [need_fuel]; pose proof (local_k_ge g k); lia. Qed.
+
+Lemma need_fuel_stable g rank : NeedRank g rank ->
+  forall n m k, In k (attached_keys g) -> (rank k < n)%nat -> (rank k < m)%nat ->
+    need_fuel n g k = need_fuel m g k.
+Proof.
+  intros [HR1 HR2]. induction n as [|n IH]; intros m k Hk Hn Hm; [lia|].
+  destruct m as [|m]; [lia|]. cbn [need_fuel]. f_equal. f_equal.
+  apply map_ext_in. intros y Hy. pose proof (HR1 k y Hy).
+  destruct n as [|n]; [lia|]. destruct m as [|m]; [lia|].
+  apply IH; [eapply cons_keys_attached; exact Hy | lia | lia].
+Qed.
+
+(* need_spec is the fixed point of max(declared, target elevation, consumers) *)
+Theorem need_spec_fix g : DepAcyclic g -> forall k, In k (attached_keys g) ->
+  need_spec g k = N.max (local_k g k) (maxl ND_OPTIONAL (map (need_spec g) (cons_keys g k))).
+Proof.
+  intros [rank HR] k Hk. pose proof HR as [HR1 HR2]. unfold need_spec.
+  pose proof (HR2 k Hk) as Hb.
+  rewrite (need_fuel_stable g rank HR _ (S (length (g_steps g))) k Hk Hb ltac:(lia)).
+  cbn [need_fuel]. reflexivity.
+Qed.
+
+Lemma maxl_gt d l t : d <= t -> (t < maxl d l <-> exists x, In x l /\ t < x).
+Proof.
+  intros Hd. split.
+  - intros H. destruct (maxl_cases d l) as [E|E]; [rewrite E in H; lia|]. exists (maxl d l). split; assumption.
+  - intros [x [Hx Ht]]. pose proof (maxl_in d l x Hx). lia.
+Qed.
+
+Definition produces_target (g : graph) (k : N) : bool :=
+  existsb (fun f => regular_output f && is_target g f) (outputs g k).
+Definition produces_under_tdir (g : graph) (k : N) : bool :=
+  existsb (fun f => regular_output f && in_tdir g f) (outputs g k).
+
+Lemma local_need_gt g s t : ND_OPTIONAL <= t -> t < ND_TARGET ->
+  (t < local_need g s <->
+   t < s_need s \/ produces_target g (s_key s) = true \/
+   (s_need s = ND_DEFAULT /\ produces_under_tdir g (s_key s) = true)).
+Proof.
+  unfold local_need, elev, produces_target, produces_under_tdir,
+    after_elev_target, after_elev_none, after_dir_guard_need, ND_OPTIONAL, ND_TARGET, ND_DEFAULT.
+  intros H1 H2.
+  destruct (existsb (fun f => regular_output f && is_target g f) (outputs g (s_key s))).
+  - split; [intros _; right; left; reflexivity | intros _; lia].
+  - destruct (s_need s =? 32) eqn:E.
+    + apply N.eqb_eq in E. cbn [andb].
+      destruct (existsb (fun f => regular_output f && in_tdir g f) (outputs g (s_key s))).
+      * split; [intros _; right; right; split; [exact E | reflexivity] | intros _; lia].
+      * split; [intros H; left; lia | intros [H|[H|[_ H]]]; [lia | discriminate | discriminate]].
+    + apply N.eqb_neq in E. cbn [andb].
+      split; [intros H; left; lia | intros [H|[H|[H _]]]; [lia | discriminate | congruence]].
+Qed.
+
+(* An attached step is needed above a threshold t (OPTIONAL without targets, DEFAULT with) iff it is
+   declared above t, or produces a target, or is DEFAULT and produces an output under a target
+   directory, or one of its attached two-hop consumers is needed above t. *)
+Theorem need_spec_characterisation_gen g k s t :
+  DepAcyclic g -> In k (attached_keys g) -> find_step g k = Some s ->
+  ND_OPTIONAL <= t -> t < ND_TARGET ->
+  (t < need_spec g k <->
+   t < s_need s \/ produces_target g k = true \/
+   (s_need s = ND_DEFAULT /\ produces_under_tdir g k = true) \/
+   exists y, In y (cons_keys g k) /\ t < need_spec g y).
+Proof.
+  intros Hac Hk Hf H1 H2. rewrite (need_spec_fix g Hac k Hk).
+  pose proof (find_step_some g k s Hf) as [_ Ek].
+  unfold local_k. rewrite Hf.
+  rewrite N.max_lt_iff, (local_need_gt g s t H1 H2), Ek.
+  rewrite (maxl_gt ND_OPTIONAL _ t H1).
+  split.
+  - intros [[H|[H|H]]|[x [Hx Ht]]]; auto.
+    apply in_map_iff in Hx. destruct Hx as [y [<- Hy]]. right; right; right. exists y. split; assumption.
+  - intros [H|[H|[H|[y [Hy Ht]]]]]; auto.
+    right. exists (need_spec g y). split; [apply in_map; exact Hy | exact Ht].
+Qed.
+
+(* ---- tui._normalize_targets ---- *)
+
+Lemma normalize_targets_spec norm raw :
+  match normalize_targets norm raw with
+  | None => In [] raw
+  | Some (ts, ds) =>
+      ~ In [] raw /\
+      ts = map norm (filter (fun r => negb (ends_with_sep r)) raw) /\
+      ds = map (fun r => with_slash (norm r)) (filter ends_with_sep raw)
+  end.
+Proof.
+  induction raw as [|r rest IH]; [cbn; repeat split; auto|].
+  cbn [normalize_targets]. destruct r as [|c r']; [left; reflexivity|].
+  destruct (normalize_targets norm rest) as [[ts ds]|].
+  - destruct IH as [Hn [-> ->]].
+    cbn [filter]. destruct (ends_with_sep (c :: r')); cbn [negb map];
+      (split; [intros [H|H]; [discriminate | contradiction] | split; reflexivity]).
+  - right. exact IH.
+Qed.
+
+Lemma with_slash_ends s : ends_with_sep (with_slash s) = true.
+Proof.
+  unfold with_slash. destruct (ends_with_sep s) eqn:E; [exact E|].
+  unfold ends_with_sep. rewrite rev_app_distr. reflexivity.
 Qed.
